@@ -57,3 +57,9 @@ def run(coro):
             await asyncio.sleep(0)
         return r
     return _loop.run_until_complete(wrapper())
+
+
+def engine_data(engine_id, **kw):
+    import openpectus.aggregator.models as Mdl
+    return Mdl.EngineData(engine_id=engine_id, computer_name="c", engine_version="1", uod_name="u",
+                          uod_author_name="a", uod_author_email="e", uod_filename="f", location="l", **kw)
